@@ -707,13 +707,58 @@ func specPreorderAll(roots []*Node, i int) []*Node {
 // ---------------------------------------------------------------------------------------------
 // config.go, tree.go, tree_handler_programmably.go: entry points
 
-// newConfig applies caller-supplied option closures in a loop; function values of unknown origin are outside
-// the verified subset, so its contract is assumed (the With* constructors are one-assignment closures).
+// config.go. An Option is a function value that sets fields of the configuration; *config is unexported, so every Option
+// value is nil or was returned by one of the With* constructors below (closed world; not tracked through slices). Each
+// constructor's closure is verified against the protocol optionFn (it touches nothing but the configuration and keeps
+// "massive implies a context") and against what it is documented to set.
+//@ pred configOK(c *config): c != nil && (c.massive ==> c.ctx != nil)
+//@ protocol optionFn(c)
+//@   requires ok: configOK(c)
+//@   modifies c.lastNodeFormat.directly, c.lastNodeFormat.indirectly, c.intermedialNodeFormat.directly, c.intermedialNodeFormat.indirectly, c.massive, c.ctx, c.encode, c.dryrun, c.fileExtensions, c.targetDir, c.strictVerify, c.noUseIterOfSimpleOutput
+//@   ensures ok': configOK(c)
+//@ closure gtree.WithBranchFormatIntermedialNode#1
+//@   implements optionFn
+//@   ensures set [C01]: c.intermedialNodeFormat.directly == directly && c.intermedialNodeFormat.indirectly == indirectly && c.lastNodeFormat.directly == old(c.lastNodeFormat.directly) && c.lastNodeFormat.indirectly == old(c.lastNodeFormat.indirectly)
+//@ closure gtree.WithBranchFormatLastNode#1
+//@   implements optionFn
+//@   ensures set [C01]: c.lastNodeFormat.directly == directly && c.lastNodeFormat.indirectly == indirectly && c.intermedialNodeFormat.directly == old(c.intermedialNodeFormat.directly) && c.intermedialNodeFormat.indirectly == old(c.intermedialNodeFormat.indirectly)
+//@ closure gtree.WithMassive#1
+//@   implements optionFn
+//@   ensures set [C12]: c.massive && c.ctx != nil
+//@ closure gtree.WithEncodeJSON#1
+//@   implements optionFn
+//@   ensures set [C04]: c.encode == encodeJSON
+//@ closure gtree.WithEncodeYAML#1
+//@   implements optionFn
+//@   ensures set [C04]: c.encode == encodeYAML
+//@ closure gtree.WithEncodeTOML#1
+//@   implements optionFn
+//@   ensures set [C04]: c.encode == encodeTOML
+//@ closure gtree.WithDryRun#1
+//@   implements optionFn
+//@   ensures set [C09]: c.dryrun && c.massive == old(c.massive) && c.encode == old(c.encode)
+//@ closure gtree.WithFileExtensions#1
+//@   implements optionFn
+//@   ensures set [C06,C09]: c.fileExtensions == extensions
+//@ closure gtree.WithTargetDir#1
+//@   implements optionFn
+//@   ensures set [C06,C07,C08]: c.targetDir == dir
+//@ closure gtree.WithStrictVerify#1
+//@   implements optionFn
+//@   ensures set [C08]: c.strictVerify
+//@ closure gtree.WithNoUseIterOfSimpleOutput#1
+//@   implements optionFn
+//@   ensures set: c.noUseIterOfSimpleOutput
+
+// newConfig: the defaults, then the options in order (nil options are skipped)
 //@ func gtree.newConfig
-//@   assumed
+//@   param options follows each.optionFn
 //@   modifies lastConfig
 //@   ghostset lastConfig := result
-//@   ensures cfg: fresh(result) && (result.massive ==> result.ctx != nil)
+//@   ensures cfg [C12]: fresh(result) && (result.massive ==> result.ctx != nil)
+//@   ensures defaults [C01,C06]: len(options) == 0 ==> !result.massive && result.encode == encodeDefault && !result.dryrun && result.targetDir == "." && !result.strictVerify && !result.noUseIterOfSimpleOutput && len(result.fileExtensions) == 0
+//@ loop gtree.newConfig#1
+//@   invariant ok: configOK(c) && fresh(c)
 
 //@ func gtree.initializeTree
 //@   requires nn: cfg != nil && (cfg.massive ==> cfg.ctx != nil)
@@ -782,23 +827,42 @@ func specPreorderAll(roots []*Node, i int) []*Node {
 //@ pred genOK(rg *rootGeneratorSimple): rg != nil && rg.counter != nil && rg.scanner != nil && rg.nodeGenerator != nil && rg.nodeGenerator.parser != nil && md.parserOK(rg.nodeGenerator.parser) && 0 <= rg.scanner.pos && rg.scanner.pos <= len(rg.scanner.lines) && !rg.scanner.failed
 
 //@ func gtree.newRootGeneratorSimple
+//@   modifies lnNodes
+//@   ghostset lnNodes := emptyseq(lnNodes)
 //@   ensures fresh: fresh(result) && genOK(result) && result.scanner.pos == 0 && !result.scanner.failed && !result.nodeGenerator.parser.isSharpRoot && result.nodeGenerator.parser.spaces == 0 && result.nodeGenerator.parser.sep == ""
+
+// lnNodes: ghost bookkeeping of the generators (C02, "nothing the user wrote is dropped"): one entry per input line
+// processed, in order: nil for a blank line, otherwise the node that represents the line (the node generated for it, or the
+// equally named sibling it was merged into). The entries are appended by ghost code after the calls that decide a line's
+// fate (after nodeGenerator.generate for a blank line, after stack.push for a root, after stack.dfs for an item); a line
+// that is skipped in any other way breaks the invariant len(lnNodes) == lines processed.
+// lineRepr(l, n, rs): n represents the non-blank line l in a forest with roots rs: it carries the line's text, and it is one
+// of the roots or hangs under a parent (which by the forest invariant hangs under a parent or is a root, and so on).
+//@ ghost var lnNodes []*Node
+//@ pred lineRepr(l string, n *Node): n != nil && (len(l) > 0 && l[0] == '#' ==> n.name == md.specHeadingText(l)) && (len(l) > 0 && l[0] != '#' ==> n.name == md.specItemText(l)) && (n.hierarchy != 1 ==> n.parent != nil)
 
 //@ func gtree.rootGeneratorSimple.generate
 //@   requires ok: genOK(rg)
-//@   modifies Node.children, Node.parent, list.List.view, list.Element.backOf, rg.counter.n, rg.scanner.pos, rg.scanner.failed, rg.nodeGenerator.parser.isSharpRoot, rg.nodeGenerator.parser.spaces, rg.nodeGenerator.parser.sep
+//@   requires start: rg.scanner.pos == 0 && len(lnNodes) == 0
+//@   modifies Node.children, Node.parent, list.List.view, list.Element.backOf, rg.counter.n, rg.scanner.pos, rg.scanner.failed, rg.nodeGenerator.parser.isSharpRoot, rg.nodeGenerator.parser.spaces, rg.nodeGenerator.parser.sep, lnNodes
+//@   after generate: lnNodes := (result0 == nil && result1 == nil) ? lnNodes ++ seqof(nil) : lnNodes
+//@   after push: lnNodes := lnNodes ++ seqof(currentNode)
+//@   after dfs: lnNodes := result ? lnNodes ++ seqof(as(last(stack.nodes.view), Node)) : lnNodes
 //@   ensures roots [C01,C12]: result1 == nil ==> (forall k int :: {result0[k]} 0 <= k && k < len(result0) ==> result0[k] != nil && result0[k].hierarchy == 1)
 //@   ensures readerr [C14]: rg.scanner.failed ==> result1 != nil
 //@   ensures consumed [C02]: result1 == nil ==> rg.scanner.pos == len(rg.scanner.lines) && !rg.scanner.failed
 //@   ensures nilres [C12]: result1 != nil ==> len(result0) == 0 || rg.scanner.failed
 //@   ensures readerr2 [C14]: rg.scanner.failed ==> result1 == rg.scanner.err
 //@   ensures blankonly [C12,C15]: (forall j int :: {rg.scanner.lines[j]} 0 <= j && j < len(rg.scanner.lines) ==> md.allSpace(rg.scanner.lines[j])) ==> len(result0) == 0 && (result1 != nil ==> rg.scanner.failed) && (forall q *Node :: {q.children} q.children == old(q.children))
+//@   ensures lines [C02]: result1 == nil ==> len(lnNodes) == len(rg.scanner.lines) && (forall j int :: {lnNodes[j]} 0 <= j && j < len(rg.scanner.lines) ==> (md.allSpace(rg.scanner.lines[j]) ==> lnNodes[j] == nil) && (!md.allSpace(rg.scanner.lines[j]) ==> lineRepr(rg.scanner.lines[j], lnNodes[j]) && (lnNodes[j].hierarchy == 1 ==> contains(result0, lnNodes[j]))))
 //@ loop gtree.rootGeneratorSimple.generate#1
 //@   invariant ok: genOK(rg)
 //@   invariant blanks [C12]: (forall j int :: {rg.scanner.lines[j]} 0 <= j && j < rg.scanner.pos ==> md.allSpace(rg.scanner.lines[j])) ==> len(roots) == 0 && stack == nil && (forall q *Node :: {q.children} q.children == old(q.children))
 //@   invariant roots: forall k int :: {roots[k]} 0 <= k && k < len(roots) ==> roots[k] != nil && roots[k].hierarchy == 1
 //@   invariant open: stack != nil ==> chain(stack)
 //@   invariant closed [C02]: stack == nil ==> len(roots) == 0
+//@   invariant count [C02]: len(lnNodes) == rg.scanner.pos
+//@   invariant lines [C02]: forall j int :: {lnNodes[j]} 0 <= j && j < rg.scanner.pos ==> (md.allSpace(rg.scanner.lines[j]) ==> lnNodes[j] == nil) && (!md.allSpace(rg.scanner.lines[j]) ==> lineRepr(rg.scanner.lines[j], lnNodes[j]) && (lnNodes[j].hierarchy == 1 ==> contains(roots, lnNodes[j])))
 //@   decreases len(rg.scanner.lines) - rg.scanner.pos
 
 // allRootsT(rs): a marker term (always true) used as a trigger for existential statements about a forest.
@@ -814,7 +878,7 @@ func allRootsT(rs []*Node) bool { return true }
 // the generator did not fail.
 //@ func gtree.treeSimple.output
 //@   requires ok: simpleTreeOK(t, cfg)
-//@   modifies Node.children, Node.parent, Node.brnch.value, Node.brnch.path, list.List.view, list.Element.backOf, counter.n, bufio.Scanner.pos, bufio.Scanner.failed, markdown.Parser.isSharpRoot, markdown.Parser.spaces, markdown.Parser.sep, out, wfail, defaultSpreaderSimple.w, encTrace, encoders, lastForest, rsRoots, rsFailed, rsStopped, rsErr, gsRoots, gsFailed, gsStopped, gsErr, spRoots, spText, esFailed
+//@   modifies Node.children, Node.parent, Node.brnch.value, Node.brnch.path, list.List.view, list.Element.backOf, counter.n, bufio.Scanner.pos, bufio.Scanner.failed, markdown.Parser.isSharpRoot, markdown.Parser.spaces, markdown.Parser.sep, out, wfail, defaultSpreaderSimple.w, encTrace, encoders, lastForest, lnNodes, rsRoots, rsFailed, rsStopped, rsErr, gsRoots, gsFailed, gsStopped, gsErr, spRoots, spText, esFailed
 //@   ghostset lastForest := roots
 //@   use lemma lemmaRawAllIsRenderAll
 //@   ensures accepted [C14]: cfg.encode == encodeDefault && result == nil ==> old(wfail) || !wfail
@@ -828,7 +892,7 @@ func allRootsT(rs []*Node) bool { return true }
 //@   param callback follows walkCallback
 //@   requires ok: simpleTreeOK(t, cfg)
 //@   requires live: !cbFailed
-//@   modifies Node.children, Node.parent, Node.brnch.value, Node.brnch.path, list.List.view, list.Element.backOf, counter.n, bufio.Scanner.pos, bufio.Scanner.failed, markdown.Parser.isSharpRoot, markdown.Parser.spaces, markdown.Parser.sep, cbTrace, cbFailed, cbLastErr, lastForest
+//@   modifies Node.children, Node.parent, Node.brnch.value, Node.brnch.path, list.List.view, list.Element.backOf, counter.n, bufio.Scanner.pos, bufio.Scanner.failed, markdown.Parser.isSharpRoot, markdown.Parser.spaces, markdown.Parser.sep, cbTrace, cbFailed, cbLastErr, lastForest, lnNodes
 //@   ghostset lastForest := roots
 //@   ensures all [C05]: result == nil ==> !cbFailed && (allRoots(lastForest) && cbTrace == old(cbTrace) ++ specPreorderAll(lastForest, len(lastForest)) && (cfg.encode == encodeDefault ==> (forall k int :: {lastForest[k]} 0 <= k && k < len(lastForest) ==> grown(cfg.lastNodeFormat, cfg.intermedialNodeFormat, lastForest[k]))))
 //@   ensures stop [C05]: cbFailed ==> result == cbLastErr && result != nil
@@ -861,15 +925,15 @@ func lemmaRawAllIsRenderAll(last, mid branchFormat, roots []*Node, i int) {
 
 //@ func gtree.treePipeline.output
 //@   requires ok: pipelineTreeOK(t, cfg)
-//@   modifies Node.children, Node.parent, Node.brnch.value, Node.brnch.path, list.List.view, list.Element.backOf, counter.n, bufio.Scanner.pos, bufio.Scanner.failed, markdown.Parser.isSharpRoot, markdown.Parser.spaces, markdown.Parser.sep, out, wfail, defaultSpreaderSimple.w, encTrace, encoders, lastForest, rsRoots, rsFailed, rsStopped, rsErr, gsRoots, gsFailed, gsStopped, gsErr, spRoots, spText, esFailed
+//@   modifies Node.children, Node.parent, Node.brnch.value, Node.brnch.path, list.List.view, list.Element.backOf, counter.n, bufio.Scanner.pos, bufio.Scanner.failed, markdown.Parser.isSharpRoot, markdown.Parser.spaces, markdown.Parser.sep, out, wfail, defaultSpreaderSimple.w, encTrace, encoders, lastForest, lnNodes, rsRoots, rsFailed, rsStopped, rsErr, gsRoots, gsFailed, gsStopped, gsErr, spRoots, spText, esFailed
 //@   ensures dryfs [C09]: fsOps == old(fsOps) && fsFailed == old(fsFailed)
 //@ func gtree.treePipeline.walk
 //@   requires ok: pipelineTreeOK(t, cfg)
-//@   modifies Node.children, Node.parent, Node.brnch.value, Node.brnch.path, list.List.view, list.Element.backOf, counter.n, bufio.Scanner.pos, bufio.Scanner.failed, markdown.Parser.isSharpRoot, markdown.Parser.spaces, markdown.Parser.sep, cbTrace, cbFailed, cbLastErr, lastForest
+//@   modifies Node.children, Node.parent, Node.brnch.value, Node.brnch.path, list.List.view, list.Element.backOf, counter.n, bufio.Scanner.pos, bufio.Scanner.failed, markdown.Parser.isSharpRoot, markdown.Parser.spaces, markdown.Parser.sep, cbTrace, cbFailed, cbLastErr, lastForest, lnNodes
 //@   param callback follows walkCallback
 
 //@ contract fromMarkdownOutput
-//@   modifies Node.children, Node.parent, Node.brnch.value, Node.brnch.path, list.List.view, list.Element.backOf, counter.n, bufio.Scanner.pos, bufio.Scanner.failed, markdown.Parser.isSharpRoot, markdown.Parser.spaces, markdown.Parser.sep, out, wfail, defaultSpreaderSimple.w, encTrace, encoders, libWriter, libFailed, libCalls, lastConfig, lastForest, rsRoots, rsFailed, rsStopped, rsErr, gsRoots, gsFailed, gsStopped, gsErr, spRoots, spText, esFailed
+//@   modifies Node.children, Node.parent, Node.brnch.value, Node.brnch.path, list.List.view, list.Element.backOf, counter.n, bufio.Scanner.pos, bufio.Scanner.failed, markdown.Parser.isSharpRoot, markdown.Parser.spaces, markdown.Parser.sep, out, wfail, defaultSpreaderSimple.w, encTrace, encoders, libWriter, libFailed, libCalls, lastConfig, lastForest, lnNodes, rsRoots, rsFailed, rsStopped, rsErr, gsRoots, gsFailed, gsStopped, gsErr, spRoots, spText, esFailed
 //@   ghostset lastConfig := cfg
 //@   ghostset libWriter := w
 //@   ghostset libFailed := old(libFailed) || result != nil
@@ -881,7 +945,7 @@ func lemmaRawAllIsRenderAll(last, mid branchFormat, roots []*Node, i int) {
 //@ contract fromMarkdownWalk
 //@   param callback follows walkCallback
 //@   requires live: !cbFailed
-//@   modifies Node.children, Node.parent, Node.brnch.value, Node.brnch.path, list.List.view, list.Element.backOf, counter.n, bufio.Scanner.pos, bufio.Scanner.failed, markdown.Parser.isSharpRoot, markdown.Parser.spaces, markdown.Parser.sep, cbTrace, cbFailed, cbLastErr, lastConfig, lastForest
+//@   modifies Node.children, Node.parent, Node.brnch.value, Node.brnch.path, list.List.view, list.Element.backOf, counter.n, bufio.Scanner.pos, bufio.Scanner.failed, markdown.Parser.isSharpRoot, markdown.Parser.spaces, markdown.Parser.sep, cbTrace, cbFailed, cbLastErr, lastConfig, lastForest, lnNodes
 //@   ghostset lastConfig := cfg
 //@   ensures walk [C05,C03,C12]: fresh(lastConfig) && (!lastConfig.massive ==> (result == nil ==> !cbFailed && (allRoots(lastForest) && cbTrace == old(cbTrace) ++ specPreorderAll(lastForest, len(lastForest)))) && (cbFailed ==> result == cbLastErr && result != nil))
 //@ applies fromMarkdownWalk to gtree.WalkFromMarkdown, gtree.Walk
@@ -924,6 +988,8 @@ func lemmaRawAllIsRenderAll(last, mid branchFormat, roots []*Node, i int) {
 //@   records rsFailed := rsFailed || e != nil
 //@   records rsErr := e
 //@   stops rsStopped
+//@   tracks lnNodes
+//@   ensures lines [C02]: !rsStopped && !rsFailed && rg != nil && rg.scanner != nil ==> len(lnNodes) == len(rg.scanner.lines) && (forall j int :: {lnNodes[j]} 0 <= j && j < len(rg.scanner.lines) ==> (md.allSpace(rg.scanner.lines[j]) ==> lnNodes[j] == nil) && (!md.allSpace(rg.scanner.lines[j]) ==> lineRepr(rg.scanner.lines[j], lnNodes[j]) && (lnNodes[j].hierarchy == 1 ==> contains(rsRoots, lnNodes[j]))))
 //@   ensures reported [C14]: !rsStopped && rg != nil && rg.scanner != nil && rg.scanner.failed ==> rsFailed
 //@   ensures consumed [C02]: !rsStopped && !rsFailed && rg != nil && rg.scanner != nil ==> rg.scanner.pos == len(rg.scanner.lines)
 //@   modifies Node.brnch.value, Node.brnch.path, out, wfail, defaultSpreaderSimple.w, counter.n, gsRoots, gsFailed, gsStopped, gsErr, spRoots, spText, esFailed, encTrace, encoders
@@ -942,7 +1008,7 @@ func lemmaRawAllIsRenderAll(last, mid branchFormat, roots []*Node, i int) {
 //@   records gsErr := e
 //@   stops gsStopped
 //@   modifies out, wfail, defaultSpreaderSimple.w, counter.n, spRoots, spText, esFailed
-//@   resumes Node.children, Node.parent, list.List.view, list.Element.backOf, counter.n, bufio.Scanner.pos, bufio.Scanner.failed, markdown.Parser.isSharpRoot, markdown.Parser.spaces, markdown.Parser.sep, Node.brnch.value, Node.brnch.path, rsRoots, rsFailed, rsStopped, rsErr
+//@   resumes Node.children, Node.parent, list.List.view, list.Element.backOf, counter.n, bufio.Scanner.pos, bufio.Scanner.failed, markdown.Parser.isSharpRoot, markdown.Parser.spaces, markdown.Parser.sep, Node.brnch.value, Node.brnch.path, rsRoots, rsFailed, rsStopped, rsErr, lnNodes
 //@   ensures all [C01,C02]: !gsFailed && !gsStopped ==> gsRoots == rsRoots && !rsFailed && !rsStopped
 
 // sp: the spreader, w: the writer it was given, g: the grower whose stream it consumes (nil: none)
@@ -953,25 +1019,31 @@ func lemmaRawAllIsRenderAll(last, mid branchFormat, roots []*Node, i int) {
 //@   records esFailed := true
 //@   tracks spRoots, spText
 //@   modifies nothing
-//@   resumes Node.children, Node.parent, list.List.view, list.Element.backOf, counter.n, bufio.Scanner.pos, bufio.Scanner.failed, markdown.Parser.isSharpRoot, markdown.Parser.spaces, markdown.Parser.sep, Node.brnch.value, Node.brnch.path, out, wfail, defaultSpreaderSimple.w, rsRoots, rsFailed, rsStopped, rsErr, gsRoots, gsFailed, gsStopped, gsErr, spRoots, spText, encTrace, encoders
+//@   resumes Node.children, Node.parent, list.List.view, list.Element.backOf, counter.n, bufio.Scanner.pos, bufio.Scanner.failed, markdown.Parser.isSharpRoot, markdown.Parser.spaces, markdown.Parser.sep, Node.brnch.value, Node.brnch.path, out, wfail, defaultSpreaderSimple.w, rsRoots, rsFailed, rsStopped, rsErr, gsRoots, gsFailed, gsStopped, gsErr, spRoots, spText, encTrace, encoders, lnNodes
 //@   ensures accepted [C14]: !esFailed ==> old(wfail) || !wfail
 //@   ensures text [C01,C09]: !esFailed && g != nil && (isType(sp, defaultSpreaderSimple) || isType(sp, colorizeSpreaderSimple)) ==> out[w] == old(out[w]) ++ spText
 //@   ensures all [C01,C02]: !esFailed ==> spRoots == rsRoots && !rsFailed && !rsStopped
 
 //@ func gtree.rootGeneratorSimple.generateIter
 //@   requires ok: genOK(rg)
+//@   requires start: rg.scanner.pos == 0
 //@   yields rootStream(rg)
 //@ closure gtree.rootGeneratorSimple.generateIter#1
 //@   yields rootStream(rg)
 //@   requires ok: genOK(rg)
-//@   requires init: stack == nil && root == nil
-//@   modifies Node.children, Node.parent, list.List.view, list.Element.backOf, counter.n, bufio.Scanner.pos, bufio.Scanner.failed, markdown.Parser.isSharpRoot, markdown.Parser.spaces, markdown.Parser.sep, Node.brnch.value, Node.brnch.path, out, wfail, defaultSpreaderSimple.w, rsRoots, rsFailed, rsStopped, rsErr, gsRoots, gsFailed, gsStopped, gsErr, spRoots, spText, esFailed, encTrace, encoders
+//@   requires init: stack == nil && root == nil && rg.scanner.pos == 0
+//@   after generate: lnNodes := (result0 == nil && result1 == nil) ? lnNodes ++ seqof(nil) : lnNodes
+//@   after push: lnNodes := lnNodes ++ seqof(currentNode)
+//@   after dfs: lnNodes := result ? lnNodes ++ seqof(as(last(stack.nodes.view), Node)) : lnNodes
+//@   modifies lnNodes, Node.children, Node.parent, list.List.view, list.Element.backOf, counter.n, bufio.Scanner.pos, bufio.Scanner.failed, markdown.Parser.isSharpRoot, markdown.Parser.spaces, markdown.Parser.sep, Node.brnch.value, Node.brnch.path, out, wfail, defaultSpreaderSimple.w, rsRoots, rsFailed, rsStopped, rsErr, gsRoots, gsFailed, gsStopped, gsErr, spRoots, spText, esFailed, encTrace, encoders
 //@ loop gtree.rootGeneratorSimple.generateIter#1#1
 //@   invariant ok: genOK(rg)
 //@   invariant live: !rsFailed && !rsStopped
 //@   invariant root: root != nil ==> root.hierarchy == 1
 //@   invariant open: stack != nil ==> chain(stack)
 //@   invariant closed: stack == nil ==> root == nil
+//@   invariant count [C02]: len(lnNodes) == rg.scanner.pos
+//@   invariant lines [C02]: forall j int :: {lnNodes[j]} 0 <= j && j < rg.scanner.pos ==> (md.allSpace(rg.scanner.lines[j]) ==> lnNodes[j] == nil) && (!md.allSpace(rg.scanner.lines[j]) ==> lineRepr(rg.scanner.lines[j], lnNodes[j]) && (lnNodes[j].hierarchy == 1 ==> lnNodes[j] == root || contains(rsRoots, lnNodes[j])))
 //@   decreases len(rg.scanner.lines) - rg.scanner.pos
 
 //@ func gtree.defaultGrowerSimple.growIter
@@ -981,7 +1053,7 @@ func lemmaRawAllIsRenderAll(last, mid branchFormat, roots []*Node, i int) {
 //@ closure gtree.defaultGrowerSimple.growIter#1
 //@   yields grownStream(dg)
 //@   requires nn: dg != nil
-//@   modifies Node.children, Node.parent, list.List.view, list.Element.backOf, counter.n, bufio.Scanner.pos, bufio.Scanner.failed, markdown.Parser.isSharpRoot, markdown.Parser.spaces, markdown.Parser.sep, Node.brnch.value, Node.brnch.path, out, wfail, defaultSpreaderSimple.w, rsRoots, rsFailed, rsStopped, rsErr, gsRoots, gsFailed, gsStopped, gsErr, spRoots, spText, esFailed
+//@   modifies Node.children, Node.parent, list.List.view, list.Element.backOf, counter.n, bufio.Scanner.pos, bufio.Scanner.failed, markdown.Parser.isSharpRoot, markdown.Parser.spaces, markdown.Parser.sep, Node.brnch.value, Node.brnch.path, out, wfail, defaultSpreaderSimple.w, lnNodes, rsRoots, rsFailed, rsStopped, rsErr, gsRoots, gsFailed, gsStopped, gsErr, spRoots, spText, esFailed
 //@ loop gtree.defaultGrowerSimple.growIter#1#1
 //@   invariant relay [C01,C02]: gsRoots == rsRoots && !rsFailed && !rsStopped && !gsFailed && !gsStopped
 
@@ -997,7 +1069,7 @@ func lemmaRawAllIsRenderAll(last, mid branchFormat, roots []*Node, i int) {
 //@ closure gtree.defaultSpreaderSimple.spreadIter#1
 //@   yields errStream(ds, w, g)
 //@   requires nn: ds != nil
-//@   modifies Node.children, Node.parent, list.List.view, list.Element.backOf, counter.n, bufio.Scanner.pos, bufio.Scanner.failed, markdown.Parser.isSharpRoot, markdown.Parser.spaces, markdown.Parser.sep, Node.brnch.value, Node.brnch.path, out, wfail, defaultSpreaderSimple.w, rsRoots, rsFailed, rsStopped, rsErr, gsRoots, gsFailed, gsStopped, gsErr, spRoots, spText, esFailed
+//@   modifies Node.children, Node.parent, list.List.view, list.Element.backOf, counter.n, bufio.Scanner.pos, bufio.Scanner.failed, markdown.Parser.isSharpRoot, markdown.Parser.spaces, markdown.Parser.sep, Node.brnch.value, Node.brnch.path, out, wfail, defaultSpreaderSimple.w, lnNodes, rsRoots, rsFailed, rsStopped, rsErr, gsRoots, gsFailed, gsStopped, gsErr, spRoots, spText, esFailed
 //@   use lemma lemmaRawIsRender
 //@   after next: spRoots := (result2 && result1 == nil) ? spRoots ++ seqof(result0) : spRoots
 //@   after next: spText := (result2 && result1 == nil) ? spText ++ specRender(g.lastNodeFormat, g.intermedialNodeFormat, result0) : spText
@@ -1014,7 +1086,7 @@ func lemmaRawAllIsRenderAll(last, mid branchFormat, roots []*Node, i int) {
 //@ closure gtree.colorizeSpreaderSimple.spreadIter#1
 //@   yields errStream(cs, w, g)
 //@   requires ok: colorizeOK(cs)
-//@   modifies Node.children, Node.parent, list.List.view, list.Element.backOf, counter.n, bufio.Scanner.pos, bufio.Scanner.failed, markdown.Parser.isSharpRoot, markdown.Parser.spaces, markdown.Parser.sep, Node.brnch.value, Node.brnch.path, out, wfail, defaultSpreaderSimple.w, rsRoots, rsFailed, rsStopped, rsErr, gsRoots, gsFailed, gsStopped, gsErr, spRoots, spText, esFailed
+//@   modifies Node.children, Node.parent, list.List.view, list.Element.backOf, counter.n, bufio.Scanner.pos, bufio.Scanner.failed, markdown.Parser.isSharpRoot, markdown.Parser.spaces, markdown.Parser.sep, Node.brnch.value, Node.brnch.path, out, wfail, defaultSpreaderSimple.w, lnNodes, rsRoots, rsFailed, rsStopped, rsErr, gsRoots, gsFailed, gsStopped, gsErr, spRoots, spText, esFailed
 //@   after next: spRoots := (result2 && result1 == nil) ? spRoots ++ seqof(result0) : spRoots
 //@   after next: spText := (result2 && result1 == nil) ? spText ++ specDryRoot(cs.fileColor, cs.dirColor, cs.fileConsiderer.extensions, result0) : spText
 //@ loop gtree.colorizeSpreaderSimple.spreadIter#1#1
@@ -1164,7 +1236,7 @@ func fsExistsAt(p string) bool { _, err := os.Stat(p); return !os.IsNotExist(err
 
 //@ func gtree.treeSimple.mkdir
 //@   requires ok: simpleTreeOK(t, cfg)
-//@   modifies Node.children, Node.parent, Node.brnch.value, Node.brnch.path, list.List.view, list.Element.backOf, counter.n, bufio.Scanner.pos, bufio.Scanner.failed, markdown.Parser.isSharpRoot, markdown.Parser.spaces, markdown.Parser.sep, fsOps, fsFailed, defaultGrowerSimple.enabledValidation, lastForest
+//@   modifies Node.children, Node.parent, Node.brnch.value, Node.brnch.path, list.List.view, list.Element.backOf, counter.n, bufio.Scanner.pos, bufio.Scanner.failed, markdown.Parser.isSharpRoot, markdown.Parser.spaces, markdown.Parser.sep, fsOps, fsFailed, defaultGrowerSimple.enabledValidation, lastForest, lnNodes
 //@   ghostset lastForest := roots
 //@   ensures ops [C06]: cfg.encode == encodeDefault && result == nil ==> (allRoots(lastForest) && !specAnyRootExists(as(t.mkdirer, defaultMkdirerSimple).targetDir, lastForest, 0) && fsOps == old(fsOps) ++ specMkOpsAll(as(t.mkdirer, defaultMkdirerSimple).targetDir, cfg.fileExtensions, lastForest, len(lastForest)) && fsFailed == old(fsFailed))
 //@   ensures validated [C07]: cfg.encode == encodeDefault && fsOps != old(fsOps) ==> ((forall k int :: {lastForest[k]} 0 <= k && k < len(lastForest) ==> validated(lastForest[k])))
@@ -1183,7 +1255,7 @@ func fsExistsAt(p string) bool { _, err := os.Stat(p); return !os.IsNotExist(err
 
 //@ func gtree.treePipeline.mkdir
 //@   requires ok: pipelineTreeOK(t, cfg)
-//@   modifies Node.children, Node.parent, Node.brnch.value, Node.brnch.path, list.List.view, list.Element.backOf, counter.n, bufio.Scanner.pos, bufio.Scanner.failed, markdown.Parser.isSharpRoot, markdown.Parser.spaces, markdown.Parser.sep, fsOps, fsFailed, defaultGrowerSimple.enabledValidation, lastForest
+//@   modifies Node.children, Node.parent, Node.brnch.value, Node.brnch.path, list.List.view, list.Element.backOf, counter.n, bufio.Scanner.pos, bufio.Scanner.failed, markdown.Parser.isSharpRoot, markdown.Parser.spaces, markdown.Parser.sep, fsOps, fsFailed, defaultGrowerSimple.enabledValidation, lastForest, lnNodes
 //@ func gtree.treePipeline.mkdirProgrammably
 //@   requires ok: pipelineTreeOK(t, cfg) && root != nil && root.hierarchy == 1
 //@   modifies Node.brnch.value, Node.brnch.path, fsOps, fsFailed, defaultGrowerSimple.enabledValidation, out, wfail, counter.n
@@ -1193,7 +1265,7 @@ func fsExistsAt(p string) bool { _, err := os.Stat(p); return !os.IsNotExist(err
 //@   requires nn: root != nil && root.hierarchy == 1
 
 //@ contract fromMarkdownMkdir
-//@   modifies Node.children, Node.parent, Node.brnch.value, Node.brnch.path, list.List.view, list.Element.backOf, counter.n, bufio.Scanner.pos, bufio.Scanner.failed, markdown.Parser.isSharpRoot, markdown.Parser.spaces, markdown.Parser.sep, fsOps, fsFailed, defaultGrowerSimple.enabledValidation, libFailed, libCalls, lastConfig, lastForest
+//@   modifies Node.children, Node.parent, Node.brnch.value, Node.brnch.path, list.List.view, list.Element.backOf, counter.n, bufio.Scanner.pos, bufio.Scanner.failed, markdown.Parser.isSharpRoot, markdown.Parser.spaces, markdown.Parser.sep, fsOps, fsFailed, defaultGrowerSimple.enabledValidation, libFailed, libCalls, lastConfig, lastForest, lnNodes
 //@   ghostset lastConfig := cfg
 //@   ghostset libFailed := old(libFailed) || result != nil
 //@   ghostset libCalls := old(libCalls) + 1
@@ -1315,7 +1387,7 @@ func lemmaInBeforeContains(ks []string, x string, i int) {
 
 //@ func gtree.treeSimple.verify
 //@   requires ok: simpleTreeOK(t, cfg)
-//@   modifies Node.children, Node.parent, Node.brnch.value, Node.brnch.path, list.List.view, list.Element.backOf, counter.n, bufio.Scanner.pos, bufio.Scanner.failed, markdown.Parser.isSharpRoot, markdown.Parser.spaces, markdown.Parser.sep, defaultGrowerSimple.enabledValidation, maps, lastForest
+//@   modifies Node.children, Node.parent, Node.brnch.value, Node.brnch.path, list.List.view, list.Element.backOf, counter.n, bufio.Scanner.pos, bufio.Scanner.failed, markdown.Parser.isSharpRoot, markdown.Parser.spaces, markdown.Parser.sep, defaultGrowerSimple.enabledValidation, maps, lastForest, lnNodes
 //@   ghostset lastForest := roots
 //@   ensures ok [C08]: cfg.encode == encodeDefault && result == nil ==> (allRoots(lastForest) && (forall k int :: {lastForest[k]} 0 <= k && k < len(lastForest) ==> validated(lastForest[k]) && rootMatches(as(t.verifier, defaultVerifierSimple), lastForest[k])))
 //@   ensures fsframe [C08]: fsOps == old(fsOps) && fsFailed == old(fsFailed)
@@ -1328,7 +1400,7 @@ func lemmaInBeforeContains(ks []string, x string, i int) {
 
 //@ func gtree.treePipeline.verify
 //@   requires ok: pipelineTreeOK(t, cfg)
-//@   modifies Node.children, Node.parent, Node.brnch.value, Node.brnch.path, list.List.view, list.Element.backOf, counter.n, bufio.Scanner.pos, bufio.Scanner.failed, markdown.Parser.isSharpRoot, markdown.Parser.spaces, markdown.Parser.sep, defaultGrowerSimple.enabledValidation, maps, lastForest
+//@   modifies Node.children, Node.parent, Node.brnch.value, Node.brnch.path, list.List.view, list.Element.backOf, counter.n, bufio.Scanner.pos, bufio.Scanner.failed, markdown.Parser.isSharpRoot, markdown.Parser.spaces, markdown.Parser.sep, defaultGrowerSimple.enabledValidation, maps, lastForest, lnNodes
 //@   ensures fsframe [C08]: fsOps == old(fsOps) && fsFailed == old(fsFailed)
 //@ func gtree.treePipeline.verifyProgrammably
 //@   requires ok: pipelineTreeOK(t, cfg) && root != nil && root.hierarchy == 1
@@ -1339,7 +1411,7 @@ func lemmaInBeforeContains(ks []string, x string, i int) {
 //@   requires nn: root != nil && root.hierarchy == 1
 
 //@ contract fromMarkdownVerify
-//@   modifies Node.children, Node.parent, Node.brnch.value, Node.brnch.path, list.List.view, list.Element.backOf, counter.n, bufio.Scanner.pos, bufio.Scanner.failed, markdown.Parser.isSharpRoot, markdown.Parser.spaces, markdown.Parser.sep, defaultGrowerSimple.enabledValidation, maps, libFailed, libCalls, lastConfig, lastForest
+//@   modifies Node.children, Node.parent, Node.brnch.value, Node.brnch.path, list.List.view, list.Element.backOf, counter.n, bufio.Scanner.pos, bufio.Scanner.failed, markdown.Parser.isSharpRoot, markdown.Parser.spaces, markdown.Parser.sep, defaultGrowerSimple.enabledValidation, maps, libFailed, libCalls, lastConfig, lastForest, lnNodes
 //@   ghostset lastConfig := cfg
 //@   ghostset libFailed := old(libFailed) || result != nil
 //@   ghostset libCalls := old(libCalls) + 1
@@ -1563,7 +1635,7 @@ func specDryReport(fileColor, dirColor *color.Color, ext []string, roots []*Node
 //@ contract formattedSpreadIterBody
 //@   yields errStream(f, w, nil)
 //@   requires nn: f != nil && f.encode != nil && f.formattedRoot != nil
-//@   modifies Node.children, Node.parent, list.List.view, list.Element.backOf, counter.n, bufio.Scanner.pos, bufio.Scanner.failed, markdown.Parser.isSharpRoot, markdown.Parser.spaces, markdown.Parser.sep, Node.brnch.value, Node.brnch.path, out, wfail, defaultSpreaderSimple.w, rsRoots, rsFailed, rsStopped, rsErr, gsRoots, gsFailed, gsStopped, gsErr, spRoots, spText, esFailed, encTrace, encoders
+//@   modifies Node.children, Node.parent, list.List.view, list.Element.backOf, counter.n, bufio.Scanner.pos, bufio.Scanner.failed, markdown.Parser.isSharpRoot, markdown.Parser.spaces, markdown.Parser.sep, Node.brnch.value, Node.brnch.path, out, wfail, defaultSpreaderSimple.w, lnNodes, rsRoots, rsFailed, rsStopped, rsErr, gsRoots, gsFailed, gsStopped, gsErr, spRoots, spText, esFailed, encTrace, encoders
 //@   after next: spRoots := (result2 && result1 == nil) ? spRoots ++ seqof(result0) : spRoots
 //@   ensures once [C04]: encoders == old(encoders) + 1
 //@   ensures trace [C04]: !esFailed ==> len(encTrace) == len(old(encTrace)) + len(spRoots) && (forall k int :: {spRoots[k]} 0 <= k && k < len(spRoots) ==> isType(encTrace[len(old(encTrace)) + k], $T) && as(encTrace[len(old(encTrace)) + k], $T).Name == spRoots[k].name)
